@@ -29,6 +29,13 @@ def fp_bits(term):
 
 class SymBV:
     """numpy int64."""
+    # immutable value object: copying (copy.copy / copy.deepcopy, e.g. a deep copy of an object array) yields the same scalar
+    def __copy__(self):
+        return self
+
+    def __deepcopy__(self, memo):
+        return self
+
 
     __slots__ = ("z",)
 
@@ -134,6 +141,14 @@ class SymBV:
 
 
 class SymFP:
+
+    # immutable value object: copying (copy.copy / copy.deepcopy, e.g. a deep copy of an object array) yields the same scalar
+    def __copy__(self):
+        return self
+
+    def __deepcopy__(self, memo):
+        return self
+
     __slots__ = ("z",)
 
     def __init__(self, z):
